@@ -11,7 +11,22 @@ def run(tier, seed, replay):
     common.proof_part(out, env, "C02")
     n = 40 if tier == "quick" else 600
     specs, hists, gens = rtcommon.gen_cases(seed, "c02", n, weights={"decorators": 0.2, "todo": 0.12, "failing": 0.1}, hist_len=0)
-    hists = [[{"op": "get", "name": s} for s in sp["cfg"]["services"]] + [{"op": "get", "name": s} for s in list(sp["cfg"]["services"])[:2]] for sp in specs]
+    hists = [[{"op": "get", "name": s} for s in sp["cfg"]["services"]] + [{"op": "get", "name": s} for s in list(sp["cfg"]["services"])[:2]]
+             + [o for s in sp["cfg"]["services"] for o in ({"op": "getctx", "ctx": 1, "name": s}, {"op": "get", "name": s}, {"op": "getctx", "ctx": 2, "name": s}, {"op": "getctx", "ctx": 1, "name": s})]
+             for sp in specs]
+    # pointer-valued value services in every scope with fields and calls: each construction starts from a fresh value
+    for sc in ("non_shared", "contextual", "shared", None):
+        for val in ("&MyStruct{}", "&al.MyStruct{}", "MyStruct{}"):
+            sv = {"value": val, "fields": {"Name": "n"}, "calls": [["SetX", [1]], ["Init", []]]}
+            if sc:
+                sv["scope"] = sc
+            cfg = {"meta": {"imports": {"al": "gv.test/fix/alpha"}}, "services": {"v": sv, "user": {"constructor": "NewA", "arguments": ["@v", "@v"]}}}
+            sp = common.mk_spec(len(specs), [cfg], keep_out=True)
+            sp["cfg"] = cfg
+            sp["what"] = ["c02-value-scope"]
+            specs.append(sp)
+            hists.append([{"op": "get", "name": "v"}, {"op": "get", "name": "v"}, {"op": "getctx", "ctx": 1, "name": "v"}, {"op": "getctx", "ctx": 1, "name": "v"},
+                          {"op": "getctx", "ctx": 2, "name": "v"}, {"op": "get", "name": "user"}, {"op": "get", "name": "v"}])
     if replay:
         rp = json.load(open(replay))["replay"]
         specs = [dict(rp, id="0", dump=True, build_info="bi", keep_out=True)]
